@@ -499,6 +499,13 @@ func (g *peGen) block(stmts []ast.Stmt, ind string) (string, error) {
 					return next("let err : Bool := if " + c + " then true else err")
 				}
 			}
+			// proxy10 (fix 4e7d4a7f0): `if s.upstreamRequest != nil && s.upstreamRequest.setupRetry { s.detachRetriedRequest() }` in the
+			// local-reply branch — a retry that was being set up is abandoned; for this model the call is the consumption of the mark
+			if len(x.Body.List) == 1 {
+				if es, ok := x.Body.List[0].(*ast.ExprStmt); ok && exprKey(es.X) == "s.detachRetriedRequest()" {
+					return next("let s : σ := if " + c + " then o.setSetupRetry s false else s")
+				}
+			}
 			return "", fmt.Errorf("processError: unsupported return-free if")
 		}
 		thenStmts := x.Body.List
